@@ -113,3 +113,102 @@ def simulate(g, assignment, ret_default=None, max_steps=200):
             return None
         cur = pick
     return None
+
+
+# ---------------------------------------------------------------------------------------------
+# process_dir (the walk loop) as an event graph, shared by C01/C02/C03/C08
+# ---------------------------------------------------------------------------------------------
+
+def walk_role(t):
+    c = t.callee or ""
+    n = t.j.get("callee_name")
+    inst = t.j.get("callee_inst") or ""
+    if n == "next" and "walkdir::IntoIter" in inst:
+        return "next"
+    if c.endswith("WalkEntry::from_walkdir"):
+        return "from_walkdir"
+    if c == MATCHER_TRAIT + "::matches":
+        return "matches"
+    if c == MATCHER_TRAIT + "::finished_dir":
+        return "finished_dir"
+    if c == MATCHER_TRAIT + "::finished":
+        return "finished"
+    if c.endswith("::should_skip_current_dir"):
+        return "should_skip"
+    if c == "walkdir::IntoIter::skip_current_dir":
+        return "skip"
+    if c.endswith("::should_quit"):
+        return "should_quit"
+    if c.endswith("MatcherIO::<'_>::new"):
+        return "io_new"
+    if c.endswith("MatcherIO::<'_>::exit_code"):
+        return "exit_code"
+    return None
+
+
+def walk_branch_role(fn, bb, o):
+    """the range filter `entry.depth() <cmp> config.min_depth` is an event of the walk loop"""
+    if o is None:
+        return None
+    o = o.strip()
+    if o.k == "bin" and o.a in ("Gt", "Lt", "Ge", "Le"):
+        has_depth = any(c.endswith("WalkEntry::depth") for c in o.callees())
+        has_min = any(x.k == "field" and x.a in ("min_depth", "max_depth") for x in o.walk())
+        if has_depth and has_min:
+            return "depth_filter"
+    return None
+
+
+def walk_graph(ctx, rule):
+    c = getattr(ctx, "_walk_graph", None)
+    if c is not None:
+        return c
+    f = ctx.fn(rule, PROCESS_DIR)
+    if f is None:
+        ctx._walk_graph = (None, None)
+        return ctx._walk_graph
+    g = prim.event_graph(f, walk_role, branch_role=walk_branch_role)
+    ctx._walk_graph = (f, g)
+    return ctx._walk_graph
+
+
+def base(n):
+    return n.split("#")[0]
+
+
+class G:
+    """convenience view on canonical event-graph edges"""
+
+    def __init__(self, g):
+        self.edges = g.canon()
+        self.out = {}
+        for a, l, b in self.edges:
+            self.out.setdefault(a, []).append((l, b))
+
+    def nodes(self, role):
+        ns = set()
+        for a, l, b in self.edges:
+            for n in (a, b):
+                if base(n) == role:
+                    ns.add(n)
+        return sorted(ns)
+
+    def succ(self, node, label_first=None):
+        """successor nodes of `node` whose label's first component is label_first (None = all)"""
+        return [b for l, b in self.out.get(node, []) if label_first is None or l.split(",")[0] == label_first]
+
+    def reach(self, starts, stop_roles=()):
+        """nodes reachable from the given nodes (inclusive of successors only), not expanding stop roles"""
+        seen = set()
+        st = [x for x in starts if base(x) not in stop_roles]
+        while st:
+            n = st.pop()
+            for l, b in self.out.get(n, []):
+                if b not in seen:
+                    seen.add(b)
+                    if base(b) not in stop_roles:
+                        st.append(b)
+        return seen
+
+    def fmt(self):
+        return edges_str(self.edges)
